@@ -444,7 +444,8 @@ func TestC17Exhaustive(t *testing.T) {
 	run.Exhaustive()
 }
 
-var c17Alphabets = []string{"ab", "abX", "aé", "ab中", "a b", "aA", ".*a(", "éÉß", "a\x00b"}
+var c17Alphabets = []string{"ab", "abX", "aé", "ab中", "a b", "aA", ".*a(", "éÉß", "a\x00b",
+	"a\uff0cb\uff08", "\uff11\uff1a,1", "\u2019'a", "a\\b", "_a_"} // full-width punctuation and digits, typographic quotes, backslashes, underscores
 
 func genC17(t *rapid.T) c17Case {
 	alpha := []rune(rapid.SampledFrom(c17Alphabets).Draw(t, "alpha"))
